@@ -29,6 +29,7 @@ type GNode struct {
 	Kids   []*GNode
 	ByName map[string]*GNode
 	IDPtr  *int // may point at the ID field of a node: same address as that node, another type
+	Attrs  map[string]int // a map of scalars, possibly the same map in several nodes (cannot be cyclic, can be shared)
 }
 
 // descriptor of a graph: node i -> next, alt (-1 = nil), kids, named
@@ -39,12 +40,13 @@ type graphDesc struct {
 	kids  [][]int
 	named []map[string]int
 	idptr []int // -1 nil, else the node whose ID field is pointed at
+	attrs []int // -1 nil, else the number of the scalar map the node holds (same number = same map)
 	root  int
 }
 
 func genGraph(rng *Rng, maxNodes int, features int) graphDesc {
 	n := 1 + rng.Intn(maxNodes)
-	g := graphDesc{n: n, next: make([]int, n), alt: make([]int, n), kids: make([][]int, n), named: make([]map[string]int, n), idptr: make([]int, n)}
+	g := graphDesc{n: n, next: make([]int, n), alt: make([]int, n), kids: make([][]int, n), named: make([]map[string]int, n), idptr: make([]int, n), attrs: make([]int, n)}
 	pick := func() int {
 		if rng.P(1, 3) {
 			return -1
@@ -60,6 +62,10 @@ func genGraph(rng *Rng, maxNodes int, features int) graphDesc {
 		g.idptr[i] = -1
 		if features >= 3 && rng.P(1, 3) {
 			g.idptr[i] = rng.Intn(n)
+		}
+		g.attrs[i] = -1
+		if features >= 3 && rng.P(1, 3) {
+			g.attrs[i] = rng.Intn(2)
 		}
 		if features >= 2 && rng.P(1, 2) {
 			// up to 12 elements: the destination slice is reallocated while it is being built
@@ -93,6 +99,7 @@ func (g graphDesc) build() *GNode {
 		}
 		return nodes[i]
 	}
+	attrMaps := map[int]map[string]int{}
 	for i, nd := range nodes {
 		nd.Next = at(g.next[i])
 		nd.Alt = at(g.alt[i])
@@ -101,6 +108,12 @@ func (g graphDesc) build() *GNode {
 		}
 		if g.idptr[i] >= 0 {
 			nd.IDPtr = &nodes[g.idptr[i]].ID
+		}
+		if g.attrs[i] >= 0 {
+			if attrMaps[g.attrs[i]] == nil {
+				attrMaps[g.attrs[i]] = map[string]int{"a": g.attrs[i], "b": 7}
+			}
+			nd.Attrs = attrMaps[g.attrs[i]]
 		}
 		if g.named[i] != nil {
 			nd.ByName = map[string]*GNode{}
@@ -116,7 +129,7 @@ func (g graphDesc) text() string {
 	var sb strings.Builder
 	fmt.Fprintf(&sb, "root=%d", g.root)
 	for i := 0; i < g.n; i++ {
-		fmt.Fprintf(&sb, " %d:{next=%d alt=%d kids=%v idptr=%d", i, g.next[i], g.alt[i], g.kids[i], g.idptr[i])
+		fmt.Fprintf(&sb, " %d:{next=%d alt=%d kids=%v idptr=%d attrs=%d", i, g.next[i], g.alt[i], g.kids[i], g.idptr[i], g.attrs[i])
 		if g.named[i] != nil {
 			keys := make([]string, 0)
 			for k := range g.named[i] {
@@ -139,6 +152,8 @@ func isomorphic(a, b *GNode) (bool, string) {
 	bwd := map[*GNode]*GNode{}
 	ifwd := map[*int]*int{} // shared *int pointers stay shared among themselves
 	ibwd := map[*int]*int{}
+	mfwd := map[uintptr]uintptr{} // scalar maps: the same map object stays one map object
+	mbwd := map[uintptr]uintptr{}
 	var walk func(x, y *GNode, path string) (bool, string)
 	walk = func(x, y *GNode, path string) (bool, string) {
 		if x == nil || y == nil {
@@ -174,6 +189,24 @@ func isomorphic(a, b *GNode) (bool, string) {
 				return false, path + ".IDPtr: two distinct pointers became one"
 			}
 			ifwd[x.IDPtr], ibwd[y.IDPtr] = y.IDPtr, x.IDPtr
+		}
+		if len(x.Attrs) != len(y.Attrs) {
+			return false, fmt.Sprintf("%s.Attrs: %d vs %d entries", path, len(x.Attrs), len(y.Attrs))
+		}
+		for k, v := range x.Attrs {
+			if w, ok := y.Attrs[k]; !ok || w != v {
+				return false, fmt.Sprintf("%s.Attrs[%s] differs", path, k)
+			}
+		}
+		if len(x.Attrs) > 0 {
+			px, py := reflect.ValueOf(x.Attrs).Pointer(), reflect.ValueOf(y.Attrs).Pointer()
+			if m, ok := mfwd[px]; ok && m != py {
+				return false, path + ".Attrs: a shared map is a different map after the round trip"
+			}
+			if m, ok := mbwd[py]; ok && m != px {
+				return false, path + ".Attrs: two distinct maps became one"
+			}
+			mfwd[px], mbwd[py] = py, px
 		}
 		if ok, why := walk(x.Next, y.Next, path+".Next"); !ok {
 			return false, why
@@ -342,7 +375,7 @@ func abstractGraphEvents(evs []Event) string {
 			// a key
 			name := string(e.D)
 			stack[top].key = false
-			stack[top].skip = name == "by_name" || name == "id_ptr"
+			stack[top].skip = name == "by_name" || name == "id_ptr" || name == "attrs"
 			if name == "id" {
 				stack[top].skip = false
 			}
